@@ -197,8 +197,7 @@ theorem nexusState_ok (ts : List T)
   · exact (hasDup_false_iff _).2 ((hinv.perm.nodup_iff).2 hinv.nodup)
   · intro t ht
     have hp := hinv.perm.trans (hperm t ht)
-    simp only [okTaxa, Bool.and_eq_true, List.all_eq_true, beq_iff_eq]
-    refine ⟨?_, hp.length_eq.symm⟩
+    simp only [okTaxa, List.all_eq_true]
     intro x hx
     simpa using (hp.mem_iff).2 hx
 
